@@ -15,77 +15,81 @@ theorem disp_iter (nowNs : Int) (u : Updater) (m : WMsg) (hwf : m.wf = true) : D
   | phcFail => exact disp_phcFail nowNs u
   | ignored v args => exact disp_ignored nowNs u v args (by simpa [WMsg.wf] using hwf)
 
-theorem writerLoopSt_len (k : Bool) (u : Updater) (l : List Value) (p : Nat) :
-    (writerLoopSt k u l p).env.length = 3 := rfl
+/-- a loop that ended: `()`, this log, this many inputs consumed, no `self` -/
+def LoopDone (r : Res) (l : List Value) (p : Nat) : Prop :=
+  ∃ st : St, r = .val .unit st ∧ st.log = l ∧ st.pos = p ∧ envGet st.env "self" = none
 
-/-- the loop from the loop state: the model's `writerRun` over the messages, then the abort -/
-theorem loop (nowNs : Int) (inp : Nat → Value) (c : Expr) (body : List Stmt)
-    (hfw : findWhile Code.fn_shm_writer__process_messages_stmts = some (c, body)) :
+/-- what the whole loop does: the model's `writerRun`, then the abort -/
+def LoopIs (r : Res) (log : List Value) (pos n : Nat) : Option (Updater × List Value) → Prop
+  | none => r = .panic
+  | some (_, l) => LoopDone r (log ++ l ++ [evRecv recvAbort]) (pos + n + 1)
+
+/-- the loop from its top state: the model's `writerRun` over the messages, then the abort -/
+theorem loop (nowNs : Int) (inp : Nat → Value) (pre : List Stmt) (c : Expr) (body : List Stmt)
+    (hfl : findLoop Code.fn_shm_writer__process_messages_stmts = some (pre, c, body)) :
     ∀ (ms : List WMsg) (_hwf : ∀ m ∈ ms, m.wf = true) (u : Updater) (log : List Value) (pos : Nat)
       (_hin : inputsAt inp pos (ms.map WMsg.recvd ++ [recvAbort])) (N : Nat) (_hN : ms.length + 102 ≤ N),
-      evalWhile N (ctxP nowNs [] inp) frW c body (writerLoopSt true u log pos)
-      = match writerRun nowNs u ms with
-        | none => .panic
-        | some (u', l) =>
-          .val .unit (writerLoopSt false u' (log ++ l ++ [evRecv recvAbort]) (pos + ms.length + 1)) := by
-  have hfw0 := hfw
-  simp [rs_eval, rs_code] at hfw
-  obtain ⟨hc, -⟩ := hfw
-  subst hc
-  have hcond : ∀ (K : Nat) (_ : 1 ≤ K) (k : Bool) (u : Updater) (log : List Value) (pos : Nat),
-      eval K (ctxP nowNs [] inp) frW (.path ["keep_running"]) (writerLoopSt k u log pos)
-      = .val (.bool k) (writerLoopSt k u log pos) := by
-    intro K hK k u log pos
-    obtain ⟨J, rfl⟩ : ∃ J, K = J + 1 := ⟨K - 1, by omega⟩
-    simp [rs_eval, writerLoopSt]
+      LoopIs (evalWhile N (ctxP nowNs [] inp) frW c body (topW nowNs inp pre u log pos)) log pos ms.length
+        (writerRun nowNs u ms) := by
   intro ms
   induction ms with
   | nil =>
     intro _ u log pos hin N hN
     obtain ⟨K, rfl⟩ : ∃ K, N = K + 2 := ⟨N - 2, by simp at hN; omega⟩
     simp only [List.map_nil, List.nil_append, inputsAt] at hin
-    rw [evalWhile_succ, hcond _ (by simp at hN; omega)]
-    simp only [Res.bind_val, if_true]
-    rw [writerLoopSt_len, disp_abort nowNs u inp log pos _ body hfw0 hin.1 (K + 1) (by simp at hN; omega)]
-    rw [evalWhile_succ, hcond _ (by simp at hN; omega)]
-    simp [writerRun, St.popTo, writerLoopSt, Res.bind_val]
+    have T := disp_abort nowNs u inp log pos pre c body hfl hin.1 K (by simp at hN; omega)
+    simp only [turnIs_done] at T
+    simpa [writerRun, LoopIs, LoopDone] using T
   | cons m ms ih =>
     intro hwf u log pos hin N hN
-    obtain ⟨K, rfl⟩ : ∃ K, N = K + 1 := ⟨N - 1, by simp at hN; omega⟩
+    obtain ⟨K, rfl⟩ : ∃ K, N = K + 2 := ⟨N - 2, by simp at hN; omega⟩
     simp only [List.map_cons, List.cons_append, inputsAt] at hin
     obtain ⟨h0, hrest⟩ := hin
     have hwf' : ∀ m' ∈ ms, m'.wf = true := fun m' hm' => hwf m' (List.mem_cons_of_mem _ hm')
-    rw [evalWhile_succ, hcond _ (by simp at hN; omega)]
-    simp only [Res.bind_val, if_true]
-    rw [writerLoopSt_len, disp_iter nowNs u m (hwf m (List.mem_cons_self ..)) inp log pos _ body hfw0 h0 K
-      (by simp at hN; omega)]
+    have T := disp_iter nowNs u m (hwf m (List.mem_cons_self ..)) inp log pos pre c body hfl h0 K
+      (by simp at hN; omega)
     simp only [writerRun]
     cases hm : m.toMsg nowNs with
     | none =>
-      simp only []
-      rw [ih hwf' u _ _ hrest K (by simp at hN; omega)]
-      cases writerRun nowNs u ms with
-      | none => rfl
+      rw [hm] at T
+      simp only [turnIs_next] at T
+      rw [T]
+      have IH := ih hwf' u (log ++ [evRecv m.recvd]) (pos + 1) hrest (K + 1) (by simp at hN; omega)
+      cases hw : writerRun nowNs u ms with
+      | none => rw [hw] at IH; simpa [LoopIs] using IH
       | some p =>
         obtain ⟨u', l⟩ := p
-        simp only [Option.map_some, List.length_cons, List.append_assoc, List.cons_append, List.nil_append]
-        congr 2
-        omega
+        rw [hw] at IH
+        simp only [LoopIs, Option.map_some, List.length_cons, List.append_assoc, List.cons_append,
+          List.nil_append] at IH ⊢
+        have e : pos + 1 + ms.length + 1 = pos + (ms.length + 1) + 1 := by omega
+        rw [e] at IH
+        exact IH
     | some msg =>
-      simp only []
+      rw [hm] at T
+      simp only [] at T ⊢
       cases hs : u.step msg with
-      | none => rfl
+      | none =>
+        rw [hs] at T
+        simp only [stepSpec, turnIs_panic] at T
+        simp [LoopIs, T]
       | some q =>
         obtain ⟨u1, r⟩ := q
-        simp only [stepRes]
-        rw [ih hwf' u1 _ _ hrest K (by simp at hN; omega)]
-        cases writerRun nowNs u1 ms with
-        | none => rfl
+        rw [hs] at T
+        simp only [stepSpec, turnIs_next] at T
+        simp only []
+        rw [T]
+        have IH := ih hwf' u1 (log ++ [evRecv m.recvd, recordValue r]) (pos + 1) hrest (K + 1) (by simp at hN; omega)
+        cases hw : writerRun nowNs u1 ms with
+        | none => rw [hw] at IH; simpa [LoopIs] using IH
         | some p =>
           obtain ⟨u', l⟩ := p
-          simp only [Option.map_some, List.length_cons, List.append_assoc, List.cons_append, List.nil_append]
-          congr 2
-          omega
+          rw [hw] at IH
+          simp only [LoopIs, Option.map_some, List.length_cons, List.append_assoc, List.cons_append,
+            List.nil_append] at IH ⊢
+          have e : pos + 1 + ms.length + 1 = pos + (ms.length + 1) + 1 := by omega
+          rw [e] at IH
+          exact IH
 
 set_option maxRecDepth 8000 in
 theorem process_messages_run (nowNs : Int) (inp : Nat → Value) (ms : List WMsg) (hwf : ∀ m ∈ ms, m.wf = true)
@@ -95,21 +99,33 @@ theorem process_messages_run (nowNs : Int) (inp : Nat → Value) (ms : List WMsg
     = match writerRun nowNs u ms with
       | none => .panic
       | some (_, l) => .ok .unit .unit (l ++ [evRecv recvAbort]) := by
-  obtain ⟨J, rfl⟩ : ∃ J, F = J + 10 := ⟨F - 10, by omega⟩
-  obtain ⟨c, body, hfw⟩ : ∃ c body, findWhile Code.fn_shm_writer__process_messages_stmts = some (c, body) := by
+  obtain ⟨J, rfl⟩ : ∃ J, F = J + 8 := ⟨F - 8, by omega⟩
+  obtain ⟨pre, c, body, hfl⟩ : ∃ pre c body,
+      findLoop Code.fn_shm_writer__process_messages_stmts = some (pre, c, body) := by
     simp [rs_eval, rs_code]
-  have L := fun N hN => loop nowNs inp c body hfw ms hwf u [] 0 hin N hN
-  simp [rs_eval, rs_code] at hfw
-  obtain ⟨rfl, rfl⟩ := hfw
-  simp only [ctxP, linuxUses_eq] at L ⊢
-  simp [rs_eval, writerLoopSt, contextValue, updaterValue, ctimespecValue] at L
+  have L := fun N hN => loop nowNs inp pre c body hfl ms hwf u [] 0 hin N hN
+  simp [rs_eval, rs_code] at hfl
+  obtain ⟨rfl, rfl, rfl⟩ := hfl
+  simp only [ctxP, topW, linuxUses_eq] at L ⊢
+  simp [rs_eval, rs_code, writerArgs, contextValue, updaterValue, ctimespecValue] at L
   simp [rs_eval, rs_code, contextValue, updaterValue, ctimespecValue]
-  rw [L (J + 6) (by omega)]
-  cases writerRun nowNs u ms with
-  | none => simp [rs_eval]
+  generalize hW : evalWhile _ _ _ _ _ _ = W
+  first
+    | (have h := L (J + 1) (by omega); rw [hW] at h)
+    | (have h := L (J + 2) (by omega); rw [hW] at h)
+    | (have h := L (J + 3) (by omega); rw [hW] at h)
+    | (have h := L (J + 4) (by omega); rw [hW] at h)
+    | (have h := L (J + 5) (by omega); rw [hW] at h)
+    | (have h := L (J + 6) (by omega); rw [hW] at h)
+    | (have h := L (J + 7) (by omega); rw [hW] at h)
+    | (have h := L (J + 8) (by omega); rw [hW] at h)
+  generalize hR : writerRun _ _ ms = R at h ⊢
+  cases R with
+  | none => simp only [LoopIs] at h; subst h; simp [rs_eval]
   | some p =>
     obtain ⟨u', l⟩ := p
-    simp [rs_eval]
+    obtain ⟨st, rfl, h1, h2, h3⟩ := h
+    simp [rs_eval, h1, h3]
 
 /-- the records in the model's log are `Updater.run` over the messages the updater acts on -/
 theorem writerRun_records (nowNs : Int) : ∀ (ms : List WMsg) (u u' : Updater) (l : List Value),
